@@ -24,8 +24,8 @@ META = {
         'control values 0..127',
     ],
     'bounds': {
-        'quick': '(notes, pedal events) in {(1,1),(1,2),(2,1),(2,2)}',
-        'thorough': 'adds (3,1),(2,3),(3,2) under a wall-clock budget (not '
+        'quick': '(notes, pedal events) in {(1,1),(1,2),(2,1),(2,2),(3,1)}',
+        'thorough': 'adds (2,3),(3,2) under a wall-clock budget (not '
                     'required to finish)',
     },
     'outside': ['more than 3 notes / 3 pedal events', 'zero-length notes',
@@ -182,8 +182,8 @@ def jobs(tier):
 
   for (n, p) in [(1, 1), (1, 2), (2, 1), (2, 2)]:
     grid(n, p, budget=400)
+  grid(3, 1, budget=900)
   if tier == 'thorough':
-    grid(3, 1, budget=1500)
     grid(2, 3, budget=3000, required=False)
     grid(3, 2, budget=3000, required=False)
   return J
